@@ -1,5 +1,5 @@
 SPECIFICATION MSpec
-CONSTANTS MaxH = 6  Wrap = FALSE  LimD = 2  LimF = 2  OnlyIssued = FALSE
+CONSTANTS MaxH = 5  Wrap = FALSE  LimD = 2  LimF = 2  OnlyIssued = FALSE
 CONSTRAINT Bounded
 INVARIANTS HandlesDistinct LimitsRespected NothingOnClosedVolume OpenFilesAreFiles NoFileOpenTwice OpenDirsAreDirs ReadOnlyUntouched NamesUniqueM
 VIEW mview
